@@ -70,7 +70,7 @@ func (d c04Digest) toks() string {
 }
 
 type c04Op struct {
-	Kind    string // upload create copy delete prune plant corrupt
+	Kind    string // upload create copy delete prune plant corrupt dashify
 	D       c04Digest
 	Content []byte
 	Name    c04Name
@@ -118,7 +118,7 @@ func (o c04Op) line() string {
 		return sb.String()
 	case "copy", "plant":
 		return o.Kind + " " + o.Src.toks() + " " + o.Dst.toks()
-	case "delete", "corrupt":
+	case "delete", "corrupt", "dashify":
 		return o.Kind + " " + o.Name.toks()
 	case "prune":
 		return "prune"
@@ -194,7 +194,7 @@ func c04ParseOp(s string) c04Op {
 	case "copy", "plant":
 		o.Src = p.name()
 		o.Dst = p.name()
-	case "delete", "corrupt":
+	case "delete", "corrupt", "dashify":
 		o.Name = p.name()
 	case "prune":
 	default:
@@ -338,6 +338,30 @@ func (s *c04Server) exec(o c04Op) string {
 			panic(err)
 		}
 		if err := os.WriteFile(p, b, 0o644); err != nil {
+			panic(err)
+		}
+		return "ok"
+	case "dashify":
+		// respell the model-layer digests of a readable manifest as sha256-<hex>
+		p := s.manifestPath(o.Name)
+		raw, err := os.ReadFile(p)
+		if err != nil {
+			return "none"
+		}
+		var m Manifest
+		if err := json.NewDecoder(bytes.NewReader(raw)).Decode(&m); err != nil {
+			return "none"
+		}
+		for i := range m.Layers {
+			if m.Layers[i].MediaType == "application/vnd.ollama.image.model" {
+				m.Layers[i].Digest = "sha256-" + c04Key(m.Layers[i].Digest)
+			}
+		}
+		var b bytes.Buffer
+		if err := json.NewEncoder(&b).Encode(m); err != nil {
+			panic(err)
+		}
+		if err := os.WriteFile(p, b.Bytes(), 0o644); err != nil {
 			panic(err)
 		}
 		return "ok"
@@ -677,6 +701,15 @@ func (r *c04Run) apply(o c04Op) {
 			}
 		}
 	}
+	if o.Kind == "dashify" && pre != nil {
+		if m := pre.man(o.Name); m != nil && m.readable {
+			for _, l := range m.m.Layers {
+				if l.MediaType == "application/vnd.ollama.image.model" {
+					r.dashHex[c04Key(l.Digest)] = true
+				}
+			}
+		}
+	}
 	r.ops = append(r.ops, o.line())
 	result := r.srv.exec(o)
 	post := r.srv.snapshot()
@@ -742,7 +775,7 @@ func (r *c04Run) apply(o c04Op) {
 	// ---- L2: frame — manifests of other names and the blobs they use are untouched
 	var targets []c04Name
 	switch o.Kind {
-	case "create", "delete", "corrupt":
+	case "create", "delete", "corrupt", "dashify":
 		targets = []c04Name{o.Name}
 	case "copy", "plant":
 		targets = []c04Name{o.Dst}
@@ -806,7 +839,7 @@ func (r *c04Run) apply(o c04Op) {
 
 	// ---- L2: no two listed models differ only by letter case (pairs that an API operation made; a pair
 	// that the non-API `plant` put there itself is the injected legacy condition, not a failure)
-	if o.Kind != "plant" && o.Kind != "corrupt" {
+	if o.Kind != "plant" && o.Kind != "corrupt" && o.Kind != "dashify" {
 		was := map[c04Name]bool{}
 		if pre != nil {
 			for _, n := range pre.listed {
@@ -1024,6 +1057,10 @@ func (g *c04Gen) next(sn *c04Snap) c04Op {
 		if n, ok := g.existing(sn, false); ok {
 			return c04Op{Kind: "corrupt", Name: n}
 		}
+	case g.class == 1 && g.r.Chance(1, 10):
+		if n, ok := g.existing(sn, false); ok {
+			return c04Op{Kind: "dashify", Name: n}
+		}
 	case g.class == 4 && g.r.Chance(1, 8):
 		o := c04Op{Kind: "create", Name: g.name(), From: &c04Name{"localhost:9", "nobody", "missing", "latest"}}
 		if n, ok := g.existing(sn, true); ok && g.r.Chance(2, 3) {
@@ -1107,6 +1144,106 @@ func (r *c04Run) end() {
 	os.RemoveAll(r.srv.dir)
 }
 
+// ---------------------------------------------------------------- which variant is the tree under test?
+
+// c04Probe runs three small experiments on the REAL code and reports which of the repairs F16a / F16b / N1
+// the tree contains (the oracle then models exactly that variant).  Each repair has more than one
+// observable facet; facets that disagree are reported as an L2 failure `variant-probe`.
+func c04Probe(t *testing.T, base string, pool *c04Pool, out *zzverif.Out) (fixAlias, fixResolve, fixReturn bool) {
+	g0 := pool.ggufs[0]
+	h0 := c04Sum(g0)
+	nm := func(ns, m string) c04Name { return c04Name{"registry.ollama.ai", ns, m, "latest"} }
+	fresh := func(tag string) *c04Server {
+		dir := filepath.Join(base, "probe-"+tag)
+		if err := os.MkdirAll(dir, 0o755); err != nil {
+			t.Fatal(err)
+		}
+		return c04NewServer(t, dir)
+	}
+	up := c04Op{Kind: "upload", Content: g0, D: c04Digest{Hex: h0}}
+	mk := func(n c04Name, dash bool) c04Op {
+		return c04Op{Kind: "create", Name: n, Files: []c04Digest{{Dash: dash, Hex: h0}}}
+	}
+	blobThere := func(s *c04Server) bool {
+		_, err := os.Stat(filepath.Join(s.dir, "blobs", "sha256-"+h0))
+		return err == nil
+	}
+	agree := func(what string, facets ...bool) bool {
+		for _, f := range facets[1:] {
+			if f != facets[0] {
+				out.L2("variant-probe", "", fmt.Sprintf("%s: facets disagree %v", what, facets))
+			}
+		}
+		return facets[0]
+	}
+
+	// F16a: (i) create records the colon spelling, (ii) delete keeps an aliased blob, (iii) prune keeps it
+	s := fresh("a1")
+	s.exec(up)
+	s.exec(mk(nm("library", "a"), false))
+	s.exec(mk(nm("library", "b"), true))
+	recorded := false
+	if sn := s.snapshot(); sn.man(nm("library", "b")) != nil && len(sn.man(nm("library", "b")).m.Layers) > 0 {
+		recorded = strings.HasPrefix(sn.man(nm("library", "b")).m.Layers[0].Digest, "sha256:")
+	}
+	s.exec(c04Op{Kind: "dashify", Name: nm("library", "b")})
+	s.exec(c04Op{Kind: "delete", Name: nm("library", "b")})
+	deleteKeeps := blobThere(s)
+	s = fresh("a2")
+	s.exec(up)
+	s.exec(mk(nm("library", "b"), true))
+	s.exec(c04Op{Kind: "dashify", Name: nm("library", "b")})
+	s.exec(c04Op{Kind: "prune"})
+	pruneKeeps := blobThere(s)
+	fixAlias = agree("F16a", recorded, deleteKeeps, pruneKeeps)
+
+	// F16b: getExistingName (no side effects) called repeatedly on a mixed store
+	s = fresh("b")
+	s.exec(up)
+	s.exec(mk(nm("library", "Foo"), false))
+	s.exec(c04Op{Kind: "plant", Src: nm("library", "Foo"), Dst: nm("other", "foo")})
+	whole, part := true, true
+	for i := 0; i < 400; i++ {
+		n1, err1 := getExistingName(model.ParseName("library/foo"))
+		n2, err2 := getExistingName(model.ParseName("third/FOO"))
+		if err1 != nil || err2 != nil {
+			t.Fatal(err1, err2)
+		}
+		if n1.Model != "Foo" {
+			whole = false // whole-name match first: library/Foo
+		}
+		if n2.Model != "Foo" {
+			part = false // first fold-equal part in sorted order: library/Foo < other/foo
+		}
+	}
+	fixResolve = agree("F16b", whole, part)
+
+	// N1: a create whose FROM cannot be resolved
+	s = fresh("n")
+	s.exec(up)
+	s.exec(mk(nm("library", "a"), false))
+	res := s.exec(c04Op{Kind: "create", Name: nm("library", "a"), From: &c04Name{"localhost:9", "nobody", "missing", "latest"}})
+	switch res {
+	case "e500":
+		fixReturn = true
+	case "e500+s":
+		fixReturn = false
+	default:
+		out.L2("variant-probe", "", "N1: unexpected events "+res)
+	}
+	b := func(x bool) int {
+		if x {
+			return 1
+		}
+		return 0
+	}
+	out.Add("variant_fixAlias", b(fixAlias))
+	out.Add("variant_fixResolve", b(fixResolve))
+	out.Add("variant_fixReturn", b(fixReturn))
+	out.Case(fmt.Sprintf("variant %d %d %d", b(fixAlias), b(fixResolve), b(fixReturn)), "ok")
+	return
+}
+
 func TestVerifC04(t *testing.T) {
 	gin.SetMode(gin.TestMode)
 	out := zzverif.NewOut()
@@ -1116,6 +1253,7 @@ func TestVerifC04(t *testing.T) {
 		out.Case(m, "ok")
 	}
 	base := t.TempDir()
+	_, fixResolve, _ := c04Probe(t, base, pool, out)
 	run := &c04Run{t: t, out: out, pool: pool}
 	hist := 0
 
@@ -1171,6 +1309,9 @@ func TestVerifC04(t *testing.T) {
 		{up(g0), mk(nm("library", "b"), true, g0), {Kind: "prune"}},
 		// digest-string aliasing, re-create
 		{up(g0), up(g1), mk(nm("library", "a"), false, g0), mk(nm("library", "b"), true, g0), mk(nm("library", "b"), false, g1)},
+		// a manifest that spells its model layer sha256-<hex> by other means than create, then delete + prune
+		{up(g0), mk(nm("library", "a"), false, g0), mk(nm("library", "b"), false, g0), {Kind: "dashify", Name: nm("library", "b")},
+			{Kind: "delete", Name: nm("library", "a")}, {Kind: "prune"}},
 		// create whose FROM cannot be resolved: the handler reports the error and carries on
 		{up(g0), mk(nm("library", "a"), false, g0), {Kind: "create", Name: nm("library", "a"), From: &c04Name{"localhost:9", "nobody", "missing", "latest"}, Sys: pool.syss[0]}},
 		// sharing patterns of the property's `why_tests_cant`, no aliasing: must hold
@@ -1197,7 +1338,11 @@ func TestVerifC04(t *testing.T) {
 		run.apply(up(g0))
 		run.apply(mk(nm("library", "Foo"), false, g0))
 		run.apply(c04Op{Kind: "plant", Src: nm("library", "Foo"), Dst: nm("other", "foo")})
-		for i := 0; i < 400 && !run.failed; i++ {
+		attempts := 400
+		if fixResolve {
+			attempts = 20 // the repaired getExistingName is deterministic
+		}
+		for i := 0; i < attempts && !run.failed; i++ {
 			run.apply(mk(nm("library", "foo"), false, g0))
 			out.Count("twin_attempts")
 		}
